@@ -6,8 +6,8 @@ from harness.lib import coq_str, coq_list
 from harness.treeenc import DiffRun, coq_forest, coq_nsmap, coq_uattr, float_lit
 
 PRE = """From Coq Require Import List NArith ZArith Bool PrimFloat. Import ListNotations.
-Require Import XV.Str XV.Forest XV.Matcher XV.Differ XV.DifferExec.
-Definition case := dcase.
+Require Import XV.Str XV.Json XV.TextFormat XV.Forest XV.Matcher XV.Differ XV.DifferExec XV.RenderExec.
+Definition case := rcase.
 Definition check := %s.
 """
 
@@ -56,6 +56,18 @@ def build_case(Ls, Rs, opts):
         coq_list(["(%d, %s)" % (i, coq_str(t)) for i, t in lt.items()]),
         coq_list(["(%d, %s)" % (i, coq_str(t)) for i, t in rt.items()]),
         coq_list(["(%d, %d)" % p for p in matches]), sterm)
+    # prefix policy: bindings of the left root, then those the right root contributes
+    pe = {}
+    for m in (run.lns, run.rns):
+        for k, v in m.items():
+            pe.setdefault(v, k)
+    pet = coq_list(["(%s, %s)" % (coq_str(u), lib.coq_ostr(p)) for u, p in pe.items()])
+    if isinstance(raw, str):
+        gt = "None"
+    else:
+        from harness.patcher_corr import coq_gaction
+        gt = "(Some %s)" % coq_list([coq_gaction(a) for a in raw])
+    term = "(%s, %s, %s)" % (term, pet, gt)
     return {"term": term, "desc": desc, "matches": matches, "raw": raw, "run": run}
 
 
@@ -75,7 +87,7 @@ def gen_inputs(run, rng, n_random, exhaustive_nodes=0, option_sets=None, **genkw
     return out
 
 
-def run_corr(name, inputs, check="check_dcase", chunk=150):
+def run_corr(name, inputs, check="check_rcase", chunk=150):
     """Returns dict(name, cases, bad, log, describe, built=list of case dicts)"""
     built = []
     skipped = 0
